@@ -314,6 +314,18 @@ def check_is_empty(ctx, rule):
            "ProtectedHeader::is_empty() = self.header.is_empty()", where=pie.span, detail={"return": show(rt)[:200]})
 
 
+def _is_self(t):
+    while t[0] in ("ref", "deref"):
+        t = t[1]
+    return t == ("param", 0)
+
+
+def _is_self_header(t):
+    while t[0] in ("ref", "deref"):
+        t = t[1]
+    return t == ("field", ("param", 0), "header")
+
+
 def check_cbor_bstr(ctx, rule):
     prog = ctx.prog
     cb = prog.fn("header::ProtectedHeader::cbor_bstr")
@@ -334,16 +346,21 @@ def check_cbor_bstr(ctx, rule):
                 emp = None
                 for c in conds:
                     nb = normalize_bool_cond(c)
-                    if nb and is_call(nb[0], "header::ProtectedHeader::is_empty"):
+                    if nb and is_call(nb[0], "header::ProtectedHeader::is_empty") and _is_self(nb[0][2][0]):
+                        emp = nb[1]
+                    # `self.header.is_empty()` is the same test (ProtectedHeader::is_empty delegates to it: protected-is_empty)
+                    if nb and is_call(nb[0], "header::Header::is_empty") and _is_self_header(nb[0][2][0]):
                         emp = nb[1]
                 seen[(tuple(sorted(od)) if od else None, emp)] = term
             det = {"%s/%s" % k: show(v)[:80] for k, v in seen.items()}
             a = seen.get((("Some",), None))
             b = seen.get((("None",), True))
             c = seen.get((("None",), False))
+            # the serialised map: `self.to_vec()?` or `self.header.to_vec()?` (ProtectedHeader's map form is its header's)
             good = (len(seen) == 3 and a == ("field", ("variant", ("field", ("param", 0), "original_data"), "Some"), "0")
                     and is_call(b, "alloc::vec::Vec::<T>::new")
-                    and c is not None and c[0] == "tryok" and is_call(c[1], "common::CborSerializable::to_vec") and c[1][2] == (("param", 0),))
+                    and c is not None and c[0] == "tryok" and is_call(c[1], "common::CborSerializable::to_vec")
+                    and c[1][2] in ((("param", 0),), (("field", ("param", 0), "header"),)))
     edits = pv.tampered({"k": "copy", "place": {"l": 1, "p": []}}, 0, 0)
     if edits:
         good = False
